@@ -703,6 +703,14 @@ func main() {
 		conversation(run, "batch", i)
 	}
 	ociauth.VerifResetClock()
+	// real-time scenarios (clock not frozen): a request waiting behind a slow token acquisition
+	var swg sync.WaitGroup
+	for _, p := range [][2]time.Duration{{2 * time.Second, 2600 * time.Millisecond}, {3 * time.Second, 3500 * time.Millisecond}} {
+		swg.Add(1)
+		go func(life, slow time.Duration) { defer swg.Done(); slowAcquisition(run, life, slow) }(p[0], p[1])
+	}
+	swg.Wait()
+	run.FloorCounter("slow_acquisition_scenarios", 2)
 
 	run.Floor("cache reuse observed (issued token)", 1, int(run.Counter("cache_reuse_issued")))
 	run.Floor("cache reuse observed (static token)", 1, int(run.Counter("cache_reuse_static")))
